@@ -99,15 +99,15 @@ def call(eng, e, st, fr, k):
                     h = meths[e.func.attr]
                     return eval_args(eng, e, s0, fr, lambda a, kw, s: _dispatch_handler(
                         eng, h, e.func.attr, [recv] + a, kw, s, fr, k, e))
+            if m is None and not isinstance(recv, Closure) and cur is not None and ("." + e.func.attr) in cur.calls:
+                h = cur.calls["." + e.func.attr]
+                return eval_args(eng, e, s0, fr, lambda a, kw, s: _dispatch_handler(
+                    eng, h, e.func.attr, [recv] + a, kw, s, fr, k, e))
             if m is None and isinstance(recv, Opq):
                 m = _opq_method(e.func.attr)
             if m is None:
                 if isinstance(recv, Closure):
                     raise Unsupported("method on closure")
-                if cur is not None and ("." + e.func.attr) in cur.calls:
-                    h = cur.calls["." + e.func.attr]
-                    return eval_args(eng, e, s0, fr, lambda a, kw, s: _dispatch_handler(
-                        eng, h, e.func.attr, [recv] + a, kw, s, fr, k, e))
                 raise Unsupported(f"call of {fname or e.func.attr} (receiver {kind}) at line {e.lineno}: "
                                   f"no contract, model or declared abstraction")
             return eval_args(eng, e, s0, fr, lambda a, kw, s: m(eng, recv, a, kw, s, fr, k, e))
@@ -487,6 +487,8 @@ def _noop(eng, a, kw, st, fr, k, node):
 def _dict(eng, a, kw, st, fr, k, node):
     if not a:
         return k(dict(kw), st)
+    if len(a) == 1 and isinstance(a[0], Opq) and not kw:
+        return k(Opq(z3.Function("fn:dict", V, V)(a[0].t)), st)
     raise Unsupported("dict(x)")
 
 
@@ -517,6 +519,11 @@ def _opq_method(name):
 def _tuple(eng, a, kw, st, fr, k, node):
     if isinstance(a[0], (list, tuple)):
         return k(tuple(a[0]), st)
+    if isinstance(a[0], Opq):
+        return k(Opq(z3.Function("fn:tuple", V, V)(a[0].t)), st)
+    if isinstance(a[0], Ref) and a[0].kind == "list":
+        # a tuple with the elements of a symbolic list: only its identity is kept
+        return k(Opq(eng.fresh("tuple_of_list", "V")), st)
     raise Unsupported("tuple(x) of symbolic")
 
 
@@ -829,6 +836,13 @@ def _anyall(eng, a, kw, st, fr, k, node):
         return k(z3.And(*ts) if name == "all" else z3.Or(*ts), st)
     if isinstance(x, Opq):
         return k(z3.Function("fn:" + name, V, z3.BoolSort())(x.t), st)
+    if isinstance(x, Ref) and x.kind == "list":
+        cell = st.heap[x.base]
+        if "items" not in cell:
+            raise Unsupported(name + " of a list of tuples")
+        items = cell["items"]
+        q = eng.S.forall if name == "all" else eng.S.exists
+        return k(q(0, cell["n"], lambda i: eng.truth(eng.from_sort(z3.Select(items, i)))), st)
     if isinstance(x, (Vec, Arr)):
         v = eng.as_vec(x, st)
         q = eng.S.forall if name == "all" else eng.S.exists
